@@ -4,8 +4,8 @@
   elements, tuples, enum members, uninterpreted JSON only at Any / LSPObject positions, at a union
   an instance of one alternative) *and* it is a faithful reading of the JSON value `j` (every key of
   every object node is a declared wire name of the class it is read as and is held by the
-  corresponding attribute; attributes without a key hold their `None` default; nothing that would be
-  omitted on the way back is present).
+  corresponding attribute; attributes without a key hold their `None` default, and `None` is itself a
+  typed value of their annotation; nothing that would be omitted on the way back is present).
 
   "j is valid for T" is then `∃ v n, rep E bad n T v j` — some typed reading exists (this is also
   C02's constructor path: any admissible choice of class at each union position).  The theorems
@@ -131,7 +131,7 @@ def repFields (r : PyTy → PyVal → Json → Bool) (kvs : List (Name × Json))
     a == f.name &&
     (match Json.lookup kvs f.wireS with
      | some x => r f.ty v x && f.faithfulJ x
-     | Option.none => f.dflt == Dflt.none && v.isNone) &&
+     | Option.none => f.dflt == Dflt.none && v.isNone && r f.ty .none .null) &&
     repFields r kvs fs vs
   | _, _ => false
 
